@@ -332,6 +332,9 @@ func identSource(pos, n string) string {
 		return "package q\n\nfunc F(" + n + " uint64) uint64 {\n\treturn " + n + " + 1\n}\n\nfunc G() uint64 {\n\treturn F(2)\n}\n"
 	case "typeparam":
 		return "package q\n\nfunc F[" + n + " any](x " + n + ", y " + n + ") " + n + " {\n\treturn x\n}\n\nfunc G() uint64 {\n\treturn F[uint64](2, 3)\n}\n"
+	case "pkgname":
+		// the package itself is written by partIdents (<pkg>/lib/l.go, package n)
+		return "package q\n\nimport \"c05ids/PKGDIR/lib\"\n\nfunc G() uint64 {\n\treturn " + n + ".Add(2)\n}\n"
 	case "local":
 		return "package q\n\nfunc G(x uint64) uint64 {\n\t" + n + " := x + 1\n\treturn " + n + " * 2\n}\n"
 	case "localvar":
@@ -345,7 +348,7 @@ var typeParamHeader = regexp.MustCompile(`Definition F \((\S+):ty\)[^\n]*: (\S+)
 func partIdents(goose, work string, acc *ev.Acc) {
 	mod := filepath.Join(work, "modi")
 	writeFile(mod, "go.mod", "module c05ids\n\ngo 1.22\n")
-	positions := []string{"funcname", "typename", "constname", "globalname", "methodname", "fieldname", "param", "local", "localvar", "typeparam"}
+	positions := []string{"funcname", "typename", "constname", "globalname", "methodname", "fieldname", "param", "local", "localvar", "typeparam", "pkgname"}
 	type item struct{ pos, name, pkg string }
 	var items []item
 	id := 0
@@ -353,7 +356,10 @@ func partIdents(goose, work string, acc *ev.Acc) {
 		for _, n := range coqWords {
 			id++
 			pkg := fmt.Sprintf("i%04d", id)
-			writeFile(mod, pkg+"/a.go", identSource(pos, n))
+			writeFile(mod, pkg+"/a.go", strings.ReplaceAll(identSource(pos, n), "PKGDIR", pkg))
+			if pos == "pkgname" {
+				writeFile(mod, pkg+"/lib/l.go", "package "+n+"\n\nfunc Add(x uint64) uint64 {\n\treturn x + 1\n}\n")
+			}
 			items = append(items, item{pos, n, pkg})
 		}
 	}
@@ -611,7 +617,7 @@ func main() {
 	os.RemoveAll(work)
 	os.Exit(acc.Done(ev.Finish{
 		Prop: "C05", Tier: *tier, Level: "exploration", Start: start,
-		Rule:        "(a) every string of <=2 (thorough <=3) tokens over {(*, *), (, *, ), \", newline, space, x, é} plus %, %d, %s, %!, tab, backslash, ', CR alone, doubled and next to \", (*, x, space at 24 text positions (a string literal in a one-line if-branch and as a call argument, a log call as the last statement of an if-branch / else-branch / range body / goroutine / closure / whole function, package / function / struct / constant doc comments, trailing constant comment, interpreted and raw string literals, string constants, a concatenation operand, panic message as a literal / a named constant / a constant concatenation, log.Printf with interpreted, raw and constant strings, fmt.Println), one package each, translated by the real goose; the file must lex under Coq's rules (nested comments, strings inside comments), Coq must see the same sentence list as with neutral text, and every body must equal the neutral body up to the literal itself (a rejected package is acceptable). (b) every parent/child/side nesting of the 10 arithmetic, 6 comparison and 2 boolean operators plus unary, call-argument, index, deref, field, conversion, store, condition, struct-literal, slice-bound, tuple and append contexts (thorough: + depth 3 over 5 non-associative operators), at two statement positions, read with Coq's precedences and interpreted: the value must equal Go's on 28 input vectors. (d) 32 Go identifiers that are Gallina reserved words or GooseLang notation / prelude names (in, then, fun, match, end, let, fix, forall, Type, rec, val, expr, Definition, Fork ...) at ten declaration positions (function, type, constant, global, method, field, parameter, := local, var local, type parameter): rejected, or the file parses and defines what it defines with a harmless name. (c) a fixture with an interface conversion, comments and constants needed at three call sites, comments and constants under all 8 flag combinations: the same list of definitions (names, order, multiplicity) with identical bodies",
+		Rule:        "(a) every string of <=2 (thorough <=3) tokens over {(*, *), (, *, ), \", newline, space, x, é} plus %, %d, %s, %!, tab, backslash, ', CR alone, doubled and next to \", (*, x, space at 24 text positions (a string literal in a one-line if-branch and as a call argument, a log call as the last statement of an if-branch / else-branch / range body / goroutine / closure / whole function, package / function / struct / constant doc comments, trailing constant comment, interpreted and raw string literals, string constants, a concatenation operand, panic message as a literal / a named constant / a constant concatenation, log.Printf with interpreted, raw and constant strings, fmt.Println), one package each, translated by the real goose; the file must lex under Coq's rules (nested comments, strings inside comments), Coq must see the same sentence list as with neutral text, and every body must equal the neutral body up to the literal itself (a rejected package is acceptable). (b) every parent/child/side nesting of the 10 arithmetic, 6 comparison and 2 boolean operators plus unary, call-argument, index, deref, field, conversion, store, condition, struct-literal, slice-bound, tuple and append contexts (thorough: + depth 3 over 5 non-associative operators), at two statement positions, read with Coq's precedences and interpreted: the value must equal Go's on 28 input vectors. (d) 32 Go identifiers that are Gallina reserved words or GooseLang notation / prelude names (in, then, fun, match, end, let, fix, forall, Type, rec, val, expr, Definition, Fork ...) at eleven positions (function, type, constant, global, method, field, parameter, := local, var local, type parameter, name of an imported package): rejected, or the file parses and defines what it defines with a harmless name. (c) a fixture with an interface conversion, comments and constants needed at three call sites, comments and constants under all 8 flag combinations: the same list of definitions (names, order, multiplicity) with identical bodies",
 		Assumptions: []string{"Coq's lexer and the levels of the GooseLang notations are modelled by mc/gl (standard levels for * + = < && || ~, level 35 for the backquoted infixes and shifts)", "nesting is judged by value on boundary inputs, not by tree isomorphism with the translator's internal tree"},
 		Extra:       map[string]any{"distinct_nontrivial": len(acc.Sets["nontrivial"])},
 	}))
